@@ -354,7 +354,7 @@ func EdgeSpace(tier string) []Spec {
 		}
 	}
 	// content-type spellings (requests: all; responses: those that matter for capture options and decoding)
-	reqCTs := []string{"none", "text-badct", "form-params:P2", "form-upper:P2", "form:P4", "form-bad", "multipart-quoted:M2", "multipart-noboundary:M1", "multipart:M4"}
+	reqCTs := []string{"none", "text-badct", "form-params:P2", "form-upper:P2", "form:P4", "form-bad", "multipart-quoted:M2", "multipart-noboundary:M1", "multipart-otherboundary:M2", "multipart:M4"}
 	resCTs := []string{"none", "text-badct", "form-params:P2", "multipart-quoted:M2"}
 	for _, kind := range []string{"request", "response"} {
 		cts, framings := reqCTs, reqFramings
@@ -573,7 +573,7 @@ func makeContent(ct string, n int) *content {
 	c = &content{}
 	kind, set := CTKind(ct)
 	isForm := kind == "form" || kind == "form-params" || kind == "form-upper"
-	isMultipart := kind == "multipart" || kind == "multipart-quoted" || kind == "multipart-noboundary"
+	isMultipart := kind == "multipart" || kind == "multipart-quoted" || kind == "multipart-noboundary" || kind == "multipart-otherboundary"
 	switch {
 	case n == 0:
 		c.payload = []byte{}
@@ -811,6 +811,10 @@ func contentTypeHeader(ct string) string {
 		return "multipart/form-data; boundary=\"" + Boundary + "\""
 	case "multipart-noboundary":
 		return "multipart/form-data"
+	case "multipart-otherboundary":
+		// round 9: a well-formed Content-Type whose boundary is not the one the body uses (a malformed upload):
+		// the body cannot be split into parts, and a logger that tries must still leave it intact
+		return "multipart/form-data; boundary=not-" + Boundary
 	}
 	panic("unknown ct " + ct)
 }
@@ -844,7 +848,7 @@ func Build(s Spec) *Msg {
 	if m.BodyAllowed {
 		m.Payload, m.Encoded, m.Decodable, m.Corrupt = e.payload, e.encoded, e.decodable, e.corrupt
 		m.Form, m.Parts = e.form, e.parts
-		if kind, _ := CTKind(s.CT); kind == "multipart-noboundary" {
+		if kind, _ := CTKind(s.CT); kind == "multipart-noboundary" || kind == "multipart-otherboundary" {
 			m.Parts = nil // without a boundary parameter the body cannot be split into parts
 		}
 	} else {
